@@ -64,10 +64,10 @@ MACRO_FAULTS = [
     ([], "((lambda (memv) (case 1 ((1) 2) (else 3))) 5)", "nonProcedure", "(case 1 ((1) 2) (else 3))"),
     ([], "((lambda (not) (unless #f 1)) 5)", "nonProcedure", "(unless #f 1)"),
     ([], "(let ((not 5)) (unless #f 1))", "nonProcedure", "(unless #f 1)"),
-    (["(define-syntax rf-zz (syntax-rules () ((_ e) (report-failure-zz e 1))))"], "(rf-zz 1)", "unbound", "(rf-zz 1)"),
-    (["(define-syntax ap-zz (syntax-rules () ((_ e) (e 1))))"], "(ap-zz 5)", "nonProcedure", "(ap-zz 5)"),
-    (["(define-syntax sw-zz (syntax-rules () ((_ a b) (b a))))"], "(sw-zz 1 undefined-var-zz)", "unbound", "(sw-zz 1 undefined-var-zz)"),
-    (["(define-syntax two-zz (syntax-rules () ((_ a ...) (begin (helper-zz a) ...))))"], "(two-zz 1 2)", "unbound", "(two-zz 1 2)"),
+    (["(define-syntax rf-zz (syntax-rules () ((rf-zz e) (report-failure-zz e 1))))"], "(rf-zz 1)", "unbound", "(rf-zz 1)"),
+    (["(define-syntax ap-zz (syntax-rules () ((ap-zz e) (e 1))))"], "(ap-zz 5)", "nonProcedure", "(ap-zz 5)"),
+    (["(define-syntax sw-zz (syntax-rules () ((sw-zz a b) (b a))))"], "(sw-zz 1 undefined-var-zz)", "unbound", "(sw-zz 1 undefined-var-zz)"),
+    (["(define-syntax two-zz (syntax-rules () ((two-zz a ...) (begin (helper-zz a) ...))))"], "(two-zz 1 2)", "unbound", "(two-zz 1 2)"),
 ]
 WRAPS = ["%s", "(let ((t 1)) %s)", "(if #t %s 0)", "(begin 0 %s)", "(list 1 %s)", "((lambda (q) %s) 1)"]
 
@@ -122,7 +122,8 @@ def run(rep, tier, rng):
         if len(rep.cov["samples"]) < 4:
             rep.sample({"text": text[:300], "fault": faulty[pos], "reported": a})
         if k == "syntax":
-            continue
+            rep.violation({"what": "a syntactically valid program (one run-time fault injected) is rejected with a syntax error",
+                           "text": text, "implementation": a, "model": b}); continue
         if loc == "-":
             rep.violation({"what": "a run-time error carries no source location", "text": text, "implementation": a}); continue
         l, c = map(int, loc.split(":"))
